@@ -59,6 +59,19 @@ def _snap(t):
     return s
 
 
+def snap_g(t):
+    """group metadata of both axes, as text (None = the axis has none)"""
+    out = []
+    for ax in ("observation", "sample"):
+        try:
+            g = t.group_metadata(axis=ax)
+            out.append("null" if g is None else json.dumps({str(k): core.canon_value(v) for k, v in g.items()},
+                                                          sort_keys=True, default=str))
+        except Exception as e:
+            out.append("!!" + type(e).__name__)
+    return out
+
+
 def ext_other_snap(kind, obj):
     if kind == "ndarray":
         return ["shape=%s" % (obj.shape,)] + [core.frac(x) for x in obj.ravel()]
@@ -158,7 +171,7 @@ def F_one_to_many(i, m):
 
 
 INPLACE_OPS = ["filter", "transform", "norm", "pa", "rankdata", "remove_empty", "update_ids"]
-MD_OPS = ["add_metadata", "del_metadata"]
+MD_OPS = ["add_metadata", "del_metadata", "add_group_metadata"]
 NEW_OPS = ["copy", "transpose", "sort", "sort_order", "head", "subsample", "partition", "collapse", "merge",
            "concat", "align_to", "generate_subsamples", "ctor_from_table"]
 READS = ["data_samp", "data_obs", "iter_samp", "iter_obs", "nnz", "cell", "sum", "str", "md"]
@@ -184,6 +197,22 @@ class World:
         self.out_of_domain = False
         self.read_failures = []
         self.incoherent = []
+        self.arg_cache = {}
+
+    def arg(self, obj):
+        """the SAME python object for equal arguments of different calls (lists of IDs, ID maps, metadata dicts):
+        callers re-use such objects, and no call may change them"""
+        key = json.dumps(obj, sort_keys=True, ensure_ascii=False)
+        if key not in self.arg_cache:
+            self.arg_cache[key] = (obj, json.dumps(obj, ensure_ascii=False))
+        return self.arg_cache[key][0]
+
+    def check_args(self):
+        for key, (obj, js) in self.arg_cache.items():
+            if json.dumps(obj, ensure_ascii=False) != js:
+                self.problems.append("an argument object was modified by a call (call %d): %s -> %s" % (
+                    len(self.calls), js[:80], json.dumps(obj, ensure_ascii=False)[:80]))
+                self.arg_cache[key] = (obj, json.dumps(obj, ensure_ascii=False))
 
     def count(self, k):
         self.stats[k] = self.stats.get(k, 0) + 1
@@ -228,8 +257,16 @@ class World:
             vals.append(s)
         if any(vals[i] & vals[j] for i in range(len(L)) for j in range(i + 1, len(L))):
             self.md_value_shared += 1
+        # the {id: position} lookups and the group-metadata dicts are objects too
+        look = [[id(x) for x in (getattr(t, "_obs_index", None), getattr(t, "_sample_index", None)) if x is not None]
+                for t in L]
+        grp = [[id(x) for x in (getattr(t, "_observation_group_metadata", None),
+                                getattr(t, "_sample_group_metadata", None)) if x is not None] for t in L]
+        lookup_share = [[i, j] for i in range(len(L)) for j in range(i + 1, len(L))
+                        if (set(look[i]) & set(look[j])) or (set(grp[i]) & set(grp[j]))]
         return {"fmt": [t.matrix_data.getformat() for t in L], "mat_share": mat_share, "id_share": id_share,
-                "id_unknown": unknown, "dict_share": dict_share, "dict_dup": dict_dup, "kept": kept}
+                "id_unknown": unknown, "dict_share": dict_share, "dict_dup": dict_dup, "kept": kept,
+                "lookup_share": lookup_share}
 
     def ext_snaps(self):
         return [[str(x) for x in o] if k == "ids" else ext_other_snap(k, o) for k, o in self.ext]
@@ -258,7 +295,8 @@ class World:
             self.out_of_domain = "returned-table-inconsistent-at-birth(shape vs IDs, F-C05-1 masking)"
         rec = {"name": name, "args": args, "raised": bool(raised), "inplace": bool(inplace), "recv": recv,
                "results": res_idx, "result_contents": [after[i] for i in res_idx], "ref": ref, "after": after,
-               "ext": self.ext_snaps(), "ext_id_idx": list(self.ext_id_idx), "facts": self.facts(old_indptr), "poke": 0}
+               "ext": self.ext_snaps(), "ext_id_idx": list(self.ext_id_idx),
+               "gmd": [snap_g(t) for t in self.live], "facts": self.facts(old_indptr), "poke": 0}
         if raised:
             rec["error"] = raised
         if extra:
@@ -331,7 +369,17 @@ class World:
             self.hold(*("md", smd))
         oids = self.ext_ids[obs_src] if obs_src is not None else list(spec["obs"])
         sids = self.ext_ids[samp_src] if samp_src is not None else list(spec["samp"])
-        t = Table(data, oids, sids, omd, smd, type=spec.get("type"), **kw)
+        # group metadata: every table gets dict objects of its own (the constructor keeps the caller's dict by
+        # reference and add_group_metadata updates it in place, see the note in tools/meta.d/C07.json)
+        if spec.get("ogmd") is not None:
+            kw["observation_group_metadata"] = copy.deepcopy(spec["ogmd"])
+        if spec.get("sgmd") is not None:
+            kw["sample_group_metadata"] = copy.deepcopy(spec["sgmd"])
+        try:
+            t = Table(data, oids, sids, omd, smd, type=spec.get("type"), **kw)
+        except Exception:
+            # refused by the constructor (an empty table under errstate(empty='raise')): nothing was built
+            return None
         src = lambda k: {"kind": "list"} if k is None else {"kind": "ext", "j": k}
         self.recipe.append(["construct", route, obs_src, samp_src])
         idx = self.record("construct", {"obs_src": src(obs_src), "samp_src": src(samp_src), "route": route},
@@ -381,7 +429,7 @@ class World:
                 dense = np.array([[float(core.unfrac(x)) for x in r] for r in cur["rows"]], dtype=float)
                 want = dense.sum(axis=0) if ax == "sample" else dense.sum(axis=1) if ax == "observation" else \
                     np.atleast_1d(dense.sum())
-                if got.shape != want.shape or not np.allclose(got, want, rtol=1e-12, atol=0):
+                if got.shape != want.shape or not np.allclose(got, want, rtol=1e-12, atol=1e-12 * float(np.abs(dense).max() if dense.size else 0)):
                     bad = "sum(%s) = %s, content says %s" % (ax, got.tolist(), want.tolist())
             elif acc == "str":
                 lines = str(t).split("\n")
@@ -447,6 +495,7 @@ class World:
             results = [t]        # convention: these return None; treated as returning the receiver
         idx = self.record(name, None, recv, inplace, results, raised, ref, old)
         rec = self.calls[-1]
+        self.check_args()
         if inplace and raised is not None and rec["after"][recv] != cur:
             # the call raised after it had changed its receiver (errcheck runs after the change); the receiver
             # must at least be coherent; the model cannot follow it, so the history ends here
@@ -464,7 +513,7 @@ def run_op(W, name, t, p, twin):
     ip = bool(p.get("inplace", False))
     try:
         if name == "filter":
-            sel = p["ids"] if p["mode"] == "ids" else F_filter(p["fn"], p.get("arg"))
+            sel = W.arg(p["ids"]) if p["mode"] == "ids" else F_filter(p["fn"], p.get("arg"))
             return [t.filter(sel, axis=ax, invert=p.get("invert", False), inplace=ip)]
         if name == "transform":
             return [t.transform(F_transform(p["fn"]), axis=ax, inplace=ip)]
@@ -477,14 +526,18 @@ def run_op(W, name, t, p, twin):
         if name == "remove_empty":
             return [t.remove_empty(axis=ax, inplace=ip)]
         if name == "update_ids":
-            return [t.update_ids(dict(p["map"]), axis=ax, strict=p.get("strict", True), inplace=ip)]
+            return [t.update_ids(W.arg(p["map"]), axis=ax, strict=p.get("strict", True), inplace=ip)]
         if name == "add_metadata":
             tgt = t.copy() if twin else t
-            tgt.add_metadata(copy.deepcopy(p["md"]), axis=ax)
+            tgt.add_metadata(W.arg(p["md"]), axis=ax)
+            return [tgt]
+        if name == "add_group_metadata":
+            tgt = t.copy() if twin else t
+            tgt.add_group_metadata(copy.deepcopy(p["gmd"]), axis=ax)
             return [tgt]
         if name == "del_metadata":
             tgt = t.copy() if twin else t
-            tgt.del_metadata(keys=p.get("keys"), axis=ax)
+            tgt.del_metadata(keys=W.arg(p["keys"]) if p.get("keys") is not None else None, axis=ax)
             return [tgt]
         if name == "copy":
             return [t.copy()]
@@ -497,7 +550,7 @@ def run_op(W, name, t, p, twin):
         if name == "sort_order":
             o = p["order"]
             if o["kind"] == "list":
-                order = list(o["ids"])
+                order = W.arg(o["ids"])
             elif o["kind"] == "ext":
                 order = W.ext_ids[o["j"]]
             else:
@@ -562,6 +615,8 @@ def op_args(name, p, cur, res, W):
         return {"axis": ax, "ups": [core.canon_md_entry(md[i]) if i in md else None for i in cur[KEY[ax]]]}
     if name == "del_metadata":
         return {"axes": ["sample", "observation"] if ax == "whole" else [ax], "keys": p.get("keys")}
+    if name == "add_group_metadata":
+        return {"axis": ax}
     if name in ("copy", "transpose", "head"):
         return {}
     if name in ("sort", "collapse"):
@@ -587,26 +642,33 @@ def op_args(name, p, cur, res, W):
 
 # ----------------------------------------------------------------------------- poke
 def poke(W, ri, rng):
-    """later in-place changes to a freshly returned table"""
+    """later in-place changes to a freshly returned table, in random order (an early step may replace objects —
+    lookups, ID arrays, dicts, buffers — that a later step would otherwise have written)"""
     n0 = len(W.calls)
-    a1 = rng.choice(AXES)
-    a2 = rng.choice(AXES)
-    a3 = rng.choice(AXES)
     t = W.live[ri]
-    W.call("transform", ri, {"axis": a1, "fn": "x2", "inplace": True})
-    ids = [str(x) for x in t.ids(axis=a2)]
-    if ids:
-        W.call("add_metadata", ri, {"axis": a2, "md": {ids[0]: {"__poke": 1}}})
-        W.call("del_metadata", ri, {"axis": rng.choice([a2, "whole"]), "keys": ["__poke"]})
-    ids = [str(x) for x in t.ids(axis=a3)]
-    if len(ids) >= 2:
-        W.call("filter", ri, {"axis": a3, "mode": "ids", "ids": ids[1:], "inplace": True})
-    else:
-        W.call("filter", ri, {"axis": a3, "mode": "ids", "ids": ids, "inplace": True})
-    a4 = rng.choice(AXES)
-    ids = [str(x) for x in t.ids(axis=a4)]
-    if ids:
-        W.call("update_ids", ri, {"axis": a4, "map": {ids[0]: ids[0] + "_p"}, "strict": False, "inplace": True})
+    steps = ["transform", "md", "filter", "update_ids", "group_md"]
+    rng.shuffle(steps)
+    for st in steps:
+        ax = rng.choice(AXES)
+        ids = [str(x) for x in t.ids(axis=ax)]
+        if st == "transform":
+            W.call("transform", ri, {"axis": ax, "fn": "x2", "inplace": True})
+        elif st == "md" and ids:
+            W.call("add_metadata", ri, {"axis": ax, "md": {ids[0]: {"__poke": 1}}})
+            W.call("del_metadata", ri, {"axis": rng.choice([ax, "whole"]), "keys": ["__poke"]})
+        elif st == "filter":
+            W.call("filter", ri, {"axis": ax, "mode": "ids", "ids": ids[1:] if len(ids) >= 2 else ids, "inplace": True})
+        elif st == "update_ids" and ids:
+            c = rng.random()
+            if c < 0.5 or len(ids) < 2:
+                m = {ids[0]: ids[0] + "_p"}
+            elif c < 0.75:
+                m = {ids[0]: ids[1], ids[1]: ids[0]}                       # swap
+            else:
+                m = {ids[k]: ids[(k + 1) % len(ids)] for k in range(len(ids))}   # rotation
+            W.call("update_ids", ri, {"axis": ax, "map": m, "strict": False, "inplace": True})
+        elif st == "group_md":
+            W.call("add_group_metadata", ri, {"axis": ax, "gmd": {"__poke_group": ["str", "p%d" % len(W.calls)]}})
     return len(W.calls) - n0
 
 
@@ -644,17 +706,55 @@ def gen_md(rng, ids, kind):
     return md
 
 
-def gen_spec(rng, n=None, m=None, holes=False, density=None):
+EXOTIC_VALUES = [5e-324, 1e-300, 2.0 ** -40, 0.1, 1.0 / 3.0, 2.0 ** 70, 16777217.0, 123456789012345.0, -2.5, 1e290,
+                 33554433.0, 2.2250738585072014e-308]
+
+
+def gen_ids(rng, n, prefix):
+    """ordinary IDs, or IDs from the awkward corners of text: canonically equivalent spellings as DISTINCT IDs,
+    format characters, quotes, unusual line separators, blanks"""
+    c = rng.random()
+    if c < 0.7:
+        return core.gen_ids(rng, n, prefix, rng.choice(["ascii", "mixed"]))
+    pool = core.twin_ids(rng, 2) + rng.sample(core.NASTY_TEXTS, min(4, len(core.NASTY_TEXTS)))
+    pool = [x for x in pool if "\n" not in x and "\t" not in x]
+    rng.shuffle(pool)
+    out = pool[:n]
+    out += core.gen_ids(rng, n - len(out), prefix, "ascii")
+    return out
+
+
+def gen_group_md(rng):
+    if rng.random() < 0.65:
+        return None
+    return {"tree": ["newick", "((a,b),c);"], "n%d" % rng.randint(0, 3): ["str", rng.choice(["x", "y"])]}
+
+
+def gen_spec(rng, n=None, m=None, holes=False, density=None, plain_values=False):
+    degenerate = n is None and m is None and rng.random() < 0.04
     n = n or rng.randint(1, 4)
     m = m or rng.randint(1, 4)
-    obs = core.gen_ids(rng, n, "O", rng.choice(["ascii", "mixed"]))
-    samp = core.gen_ids(rng, m, "S", rng.choice(["ascii", "mixed"]))
+    obs = gen_ids(rng, n, "O")
+    samp = gen_ids(rng, m, "S")
+    if rng.random() < 0.15:
+        # names shared across both axes
+        k = min(n, m, rng.randint(1, 2))
+        samp[:k] = obs[:k]
+    if degenerate:
+        # one empty axis
+        if rng.random() < 0.5:
+            obs, n = [], 0
+        else:
+            samp, m = [], 0
     kinds = ["none", "text", "tax", "mixed"] + (["holes"] if holes else [])
-    return {"obs": obs, "samp": samp,
-            "rows": core.gen_grid(rng, n, m, density if density is not None else rng.choice([0.3, 0.6, 0.9, 1.0]),
-                                  ("count",)),
-            "omd": gen_md(rng, obs, rng.choice(kinds)), "smd": gen_md(rng, samp, rng.choice(kinds)),
-            "type": rng.choice(core.TYPES)}
+    rows = core.gen_grid(rng, n, m, density if density is not None else rng.choice([0.3, 0.6, 0.9, 1.0]), ("count",))
+    if not plain_values and rng.random() < 0.12:
+        # values outside the comfortable range: denormals, integers above 2**24 / 2**53, non-dyadic fractions, negatives
+        rows = [[(rng.choice(EXOTIC_VALUES) if (x != 0 and rng.random() < 0.6) else x) for x in r] for r in rows]
+    return {"obs": obs, "samp": samp, "rows": rows,
+            "omd": gen_md(rng, obs, rng.choice(kinds)) if n else None,
+            "smd": gen_md(rng, samp, rng.choice(kinds)) if m else None,
+            "type": rng.choice(core.TYPES), "ogmd": gen_group_md(rng), "sgmd": gen_group_md(rng)}
 
 
 CTOR_ROUTES = ["dense", "csr", "csc", "coo", "lil", "csr_unsorted", "csr_zeros", "nested"]
@@ -722,6 +822,15 @@ def gen_params(rng, W, name, recv):
         if c < 0.9:
             return {"axis": ax, "map": {ids[0]: "z"}, "strict": True, "inplace": ip}           # missing keys
         return {"axis": ax, "map": {i: i for i in ids}, "strict": True, "inplace": ip}
+    if name == "add_group_metadata":
+        return {"axis": ax, "gmd": {"g%d" % rng.randint(0, 2): ["str", rng.choice(["u", "v"])]}}
+    if name == "add_metadata":
+        if not ids:
+            return None
+        return {"axis": ax, "md": {i: {"note": rng.choice(["p", "q"])} for i in ids if rng.random() < 0.6} or
+                {ids[0]: {"note": "p"}}}
+    if name == "del_metadata":
+        return {"axis": rng.choice(AXES + ["whole"]), "keys": rng.choice([["note"], ["grp"], ["grp", "taxonomy"], None])}
     if name == "copy" or name == "transpose":
         return {}
     if name == "sort":
@@ -830,6 +939,7 @@ def derived_spec(rng, spec, how):
     s["omd"] = gen_md(rng, s["obs"], rng.choice(kinds))
     s["smd"] = gen_md(rng, s["samp"], rng.choice(kinds))
     s["type"] = rng.choice(core.TYPES)
+    s["ogmd"], s["sgmd"] = gen_group_md(rng), gen_group_md(rng)
     return s
 
 
@@ -887,7 +997,7 @@ def prep_layout(W, recv, how, rng):
     raise ValueError(how)
 
 
-WEIGHTED = (INPLACE_OPS * 3) + NEW_OPS * 2
+WEIGHTED = (INPLACE_OPS * 3) + NEW_OPS * 2 + MD_OPS
 
 
 REFUSALS = ["filter-unknown-id", "filter-empties", "update_ids-collision", "update_ids-missing-key",
@@ -929,10 +1039,10 @@ def refused_history(rng, which):
     return W
 
 
-def wide_history(rng, axis):
+def wide_history(rng, axis, n_axis=None):
     """>= 64 IDs on one axis (size-dependent fast paths), arguments not in axis order"""
     W = World()
-    spec = core.wide_spec(rng, axis=axis, md=rng.random() < 0.5)
+    spec = core.wide_spec(rng, n_axis=n_axis, axis=axis, md=rng.random() < 0.5)
     ids = list(spec[KEY[axis]])
     src = W.new_ext_ids(ids) if rng.random() < 0.5 else None
     W.construct(spec, rng.choice(["csr", "csc", "dense"]), src if axis == "observation" else None,
@@ -962,6 +1072,8 @@ def wide_history(rng, axis):
 def random_history(rng, quick, holes=False):
     W = World()
     build_pool(W, rng, holes=holes)
+    if not W.live:
+        return W
     n_calls = rng.randint(1, 4)
     done = 0
     guard = 0
@@ -1045,7 +1157,7 @@ def systematic_templates(spec):
 def systematic_world(rng, route, share):
     """t0 = receiver, t1 = same IDs permuted, t2 = other samples, t3 = other observations"""
     W = World()
-    spec = gen_spec(rng, n=3, m=3, density=0.8)
+    spec = gen_spec(rng, n=3, m=3, density=0.8, plain_values=True)
     spec["omd"] = gen_md(rng, spec["obs"], "mixed")
     spec["smd"] = gen_md(rng, spec["samp"], "text")
     osrc = ssrc = None
@@ -1297,7 +1409,7 @@ def run_recipe(kind, seed, params):
             W.read(i, rng.choice(READS), rng)
         return W
     if kind == "wide":
-        return wide_history(rng, params["axis"])
+        return wide_history(rng, params["axis"], params.get("n_axis"))
     if kind == "random":
         return random_history(rng, params.get("quick", True), holes=params.get("holes", False))
     raise ValueError(kind)
@@ -1387,6 +1499,9 @@ def run(ctx):
     # a few large tables (size thresholds)
     for j in range(4 if quick else 24):
         run_case(ctx, "wide", ctx.rng.getrandbits(40), {"axis": AXES[j % 2]}, compiled[0], compiled[1])
+    for j in range(1 if quick else 4):
+        run_case(ctx, "wide", ctx.rng.getrandbits(40), {"axis": AXES[(j + ctx.seed) % 2], "n_axis": 520 + 7 * j},
+                 compiled[0], compiled[1])
     # random histories; a share of them under a non-default error profile
     i = 0
     while ctx.time_left(budget) > 0:
